@@ -439,6 +439,23 @@ def startup_data_dir():
     elif seen != got:
       bad.append(('escape:startup', 'LOCAL_DATA_DIR = %s: the daemon settles on %r, but the database object was built with %r - every '
                   'file it creates lies outside the configured data directory' % (spelling, got, seen), {'startup': spelling}))
+  # an explicitly configured data directory stays where carbon.conf puts it, whatever a [cache:<instance>] section says
+  # about the storage root
+  explicit = '/srv/graphite/storage/whisper'
+  for over in ({'STORAGE_DIR': '/srv/graphite/storage-b'}, {'STORAGE_DIR': '/srv/graphite/storage-b', 'LOCAL_DATA_DIR': explicit},
+               {'LOG_DIR': '/srv/graphite/storage-b/log'}):
+    n += 1
+    base = {'STORAGE_DIR': '/srv/graphite/storage', 'LOCAL_DATA_DIR': explicit}
+    try:
+      r = daemonconf.effective('carbon-cache', base, over, 'b', keys=['LOCAL_DATA_DIR'])
+    except Exception as e:   # noqa
+      bad.append(('startup:exception', 'carbon-cache --instance b start-up with [cache] %r [cache:b] %r failed: %s' % (base, over, str(e)[-300:]),
+                  {'startup': 'instance'}))
+      continue
+    got, seen = r.get('LOCAL_DATA_DIR'), r.get(daemonconf.DB_DIR_KEY)
+    if got != explicit or seen != explicit:
+      bad.append(('escape:startup', '[cache] LOCAL_DATA_DIR = %s, [cache:b] %r: instance b settles on %r and builds its database with %r - '
+                  'every file lies outside the configured data directory' % (explicit, over, got, seen), {'startup': 'instance'}))
   return n, bad
 
 
